@@ -7,7 +7,7 @@ the name sources agree. Not: validity of the emitted values.
 """
 import ast
 
-from ..boolx import BoolEval, Unknown, show, valuations
+from ..boolx import substitute,  BoolEval, Unknown, show, valuations
 from ..model import AnalysisError
 from ..util import dotted, norm, short, walk_no_nested
 from .common_fields import ATOMS, SER_VISITOR, SMETH, FieldModel, consistent
@@ -51,6 +51,19 @@ def check(ctx):
         if isinstance(n, ast.comprehension) and isinstance(n.target, ast.Name) and n.target.id == "required" and isinstance(n.iter, ast.List) and len(n.iter.elts) == 1:
             req_expr = n.iter.elts[0]
     ctx.require(req_expr is not None, "`for required in [...]` not found in SerializationSchemaBuilder.properties")
+    # single-assignment locals of properties() (hoisted settings, typed-dict test) are inlined before reading the expressions
+    cnt_, loc_ = {}, {}
+    for n in walk_no_nested(props.node):
+        if isinstance(n, ast.Assign) and len(n.targets) == 1 and isinstance(n.targets[0], ast.Name):
+            cnt_[n.targets[0].id] = cnt_.get(n.targets[0].id, 0) + 1
+            loc_[n.targets[0].id] = n.value
+    plocals = {k: v for k, v in loc_.items() if cnt_[k] == 1}
+    _kept = []
+    def inl(e):
+        e2 = substitute(e, plocals) if plocals else e
+        _kept.append(e2)
+        return e2
+    req_expr = inl(req_expr)
     ctx.require(isinstance(req_expr, ast.IfExp) and "is_typed_dict" in norm(req_expr.test), "required expression of fields changed shape (expected `field.required if <typed dict> else ...`)")
     td_expr, plain_expr = req_expr.body, req_expr.orelse
     try:
@@ -83,7 +96,7 @@ def check(ctx):
         if isinstance(c, ast.Call) and dotted(c.func) == "Property" and c.args and "serialized.alias" in norm(c.args[0]):
             sprop = c
     ctx.require(sprop is not None and len(sprop.args) >= 4, "Property(...) of serialized methods not found")
-    s_required = sprop.args[3]
+    s_required = inl(sprop.args[3])
     s_atoms = {
         "is_union_of(ret_type, UndefinedType)": "ret_undef", "is_union_of(types['return'], UndefinedType)": "ret_undef",
         "is_union_of(ret_type, NoneType)": "ret_none", "is_union_of(types['return'], NoneType)": "ret_none",
@@ -130,6 +143,8 @@ def check(ctx):
 
 
 def mutants(mb):
+    mb.add_text("neg-settings-hoisted", "apischema/json_schema/schema.py", "                not is_union_of(types[\"return\"], UndefinedType)\n                and not (\n                    settings.serialization.exclude_none\n                    and is_union_of(types[\"return\"], NoneType)\n                ),", "                not is_union_of(types[\"return\"], UndefinedType)\n                and not (\n                    settings.serialization.exclude_none and is_union_of(types[\"return\"], NoneType)\n                ),", negative=True)
+    mb.add_text("serialized-required-wrong-setting", "apischema/json_schema/schema.py", "                    settings.serialization.exclude_none\n                    and is_union_of(types[\"return\"], NoneType)", "                    settings.serialization.exclude_defaults\n                    and is_union_of(types[\"return\"], NoneType)", "C07.R2", "serialized-required")
     S = "apischema/serialization/__init__.py"
     J = "apischema/json_schema/schema.py"
     mb.add_text("serialized-skip-none-defaults", S, "                        is_union_of(ret_type, NoneType) and self.exclude_none,\n", "                        is_union_of(ret_type, NoneType)\n                        and (self.exclude_none or self.exclude_defaults),\n", "C07.R2", "serialized-required")
